@@ -3,6 +3,8 @@ import TeakraModel.Exec.Alm
 import TeakraModel.Exec.Shift
 import TeakraModel.Exec.Mma
 import TeakraModel.Exec.MinMax
+import TeakraModel.Exec.Arith
+import TeakraModel.Exec.Control
 /-! Aggregates the instruction handler families (`TeakraModel/Exec/*.lean`). -/
 namespace Teakra
 /-- An opcode outside the part of the handler set that is modelled so far. -/
